@@ -200,9 +200,11 @@ func (g *Gateway) handleLegacyProtocol(w http.ResponseWriter, r *http.Request, t
 		log.Printf("Opening RDGOUT for client %s", id.GetAttribute(identity.AttrClientIp))
 
 		t.transportOut = out
-		out.SendAccept(true)
-
+		// publish the tunnel before accepting, the client may send RDG_IN_DATA
+		// as soon as it sees the accept
 		c.Set(t.RDGId, t, cache.DefaultExpiration)
+
+		out.SendAccept(true)
 	} else if r.Method == MethodRDGIN {
 		legacyConnections.Inc()
 		defer legacyConnections.Dec()
@@ -213,6 +215,11 @@ func (g *Gateway) handleLegacyProtocol(w http.ResponseWriter, r *http.Request, t
 			return
 		}
 		defer in.Close()
+
+		if t.transportOut == nil {
+			log.Printf("RDG_IN_DATA for session %s without a RDG_OUT_DATA channel, closing", t.RDGId)
+			return
+		}
 
 		if t.transportIn == nil {
 			t.Id = uuid.New().String()
